@@ -5,6 +5,10 @@
 
   Provider contract (`ProvOK`): asked for one ID the caller's EventProvider answers with an error,
   with nothing, or with exactly the requested event ("returns the requested list of events").
+
+  Written from the property text: events are judged one by one (`good`), an event at a state by the WHOLE
+  state (`atState`), an auth chain over every event the provider supplies (`Reach`).  What the code computed
+  before the repairs of findings R1 and R3 is kept under `atStateCited` / `…ByID` for the record.
 -/
 import VModel.FedCheck
 namespace V.FedCheck.Spec
@@ -34,10 +38,11 @@ def provided (prov : Option EventProvider) (id : Bytes) : Option Event :=
 def lastWithID (all : List Event) (id : Bytes) : Option Event :=
   all.reverse.find? (fun e => e.eventID == id)
 
-/-- an event "arrived with verified signatures" under `id`: no event of the response with this ID
-    failed its signature check -/
+/-- an event "arrived with verified signatures" under `id`: the last event of the response that carries this
+    ID and passed its signature check.  (Two events of one response can share an event ID: in room versions 1
+    and 2 the ID is a member of the event, in the later ones the reference hash does not cover the signatures.) -/
 def verified {P} (O : Oracles P) (all : List Event) (id : Bytes) : Option Event :=
-  if all.any (fun e => e.eventID == id && !O.sigOk e) then none else lastWithID all id
+  all.reverse.find? (fun e => e.eventID == id && O.sigOk e)
 
 /-- verified-or-provided -/
 def resolve (base : Bytes → Option Event) (prov : Option EventProvider) (id : Bytes) : Option Event :=
@@ -55,10 +60,6 @@ def authOf {P} (O : Oracles P) (res : Bytes → Option Event) (e : Event) : P :=
 def good {P} (O : Oracles P) (prov : Option EventProvider) (all : List Event) (e : Event) : Bool :=
   O.sigOk e && O.allowedBy e (authOf O (resolve (verified O all) prov) e)
 
-/-- events are dropped by ID -/
-def dropped {P} (O : Oracles P) (prov : Option EventProvider) (all : List Event) (id : Bytes) : Bool :=
-  all.any (fun e => e.eventID == id && !good O prov all e)
-
 def nodupB {α} [BEq α] : List α → Bool
   | [] => true
   | x :: xs => !xs.contains x && nodupB xs
@@ -69,13 +70,15 @@ def tupleOf (e : Event) : Bytes × Bytes := (e.type, e.stateKey.getD [])
 def responseMalformed (A S : List Event) : Bool :=
   A.any (fun e => e.stateKey.isNone) || S.any (fun e => e.stateKey.isNone) || !nodupB (S.map tupleOf)
 
-/-- the answer C14 demands of CheckStateResponse: `none` = the whole response fails -/
+/-- the answer C14 demands of CheckStateResponse: `none` = the whole response fails; otherwise EXACTLY the
+    events failing one of the two checks are dropped — each event on its own account, not on account of
+    another event that happens to carry the same ID -/
 def stateResponse {P} (O : Oracles P) (prov : Option EventProvider) (A S : List Event) :
     Option (List Event × List Event) :=
   if responseMalformed A S then none
   else
     let all := A ++ S
-    some (A.filter (fun e => !dropped O prov all e.eventID), S.filter (fun e => !dropped O prov all e.eventID))
+    some (A.filter (good O prov all), S.filter (good O prov all))
 
 /-- `AddEvent` of every returned state event -/
 def stateProviderOf {P} (O : Oracles P) (S : List Event) : P := S.foldl O.add O.empty
@@ -90,6 +93,34 @@ def sendJoin {P} (O : Oracles P) (prov : Option EventProvider) (A S : List Event
     if O.allowedBy join (authOf O (resolve (lastWithID (A' ++ S')) prov) join)
        && O.allowedBy join (stateProviderOf O S') then some (A', S') else none
 
+/-! ### What CheckStateResponse computed before the repair of finding R3 (failures keyed by event ID) -/
+
+/-- no event of the response with this ID failed its signature check -/
+def verifiedByID {P} (O : Oracles P) (all : List Event) (id : Bytes) : Option Event :=
+  if all.any (fun e => e.eventID == id && !O.sigOk e) then none else lastWithID all id
+
+def goodByID {P} (O : Oracles P) (prov : Option EventProvider) (all : List Event) (e : Event) : Bool :=
+  O.sigOk e && O.allowedBy e (authOf O (resolve (verifiedByID O all) prov) e)
+
+/-- events were dropped by ID: a good event went with a bad twin -/
+def droppedByID {P} (O : Oracles P) (prov : Option EventProvider) (all : List Event) (id : Bytes) : Bool :=
+  all.any (fun e => e.eventID == id && !goodByID O prov all e)
+
+def stateResponseByID {P} (O : Oracles P) (prov : Option EventProvider) (A S : List Event) :
+    Option (List Event × List Event) :=
+  if responseMalformed A S then none
+  else
+    let all := A ++ S
+    some (A.filter (fun e => !droppedByID O prov all e.eventID), S.filter (fun e => !droppedByID O prov all e.eventID))
+
+def sendJoinByID {P} (O : Oracles P) (prov : Option EventProvider) (A S : List Event) (join : Event) :
+    Option (List Event × List Event) :=
+  match stateResponseByID O prov A S with
+  | none => none
+  | some (A', S') =>
+    if O.allowedBy join (authOf O (resolve (lastWithID (A' ++ S')) prov) join)
+       && O.allowedBy join (stateProviderOf O S') then some (A', S') else none
+
 /-! ### VerifyAuthRulesAtState -/
 
 /-- lookup in the returned state map (distinct keys) -/
@@ -97,7 +128,11 @@ def stateLookup (kvs : List (Bytes × Event)) (id : Bytes) : Option Event :=
   (kvs.find? (fun kv => kv.1 == id)).map (·.2)
 
 /-- C14: accepted exactly when (validation permitted and every auth event ID is in the state before
-    the event) or the event is allowed by the state before it.  `none` = a provider call failed. -/
+    the event) or the event is allowed by THE STATE before it: every event of the state the provider
+    returned takes part, whether or not the event chose to cite it in its `auth_events` (an event
+    that leaves the power levels, the join rules, a ban out of its `auth_events` is still judged by
+    them).  A "state" containing an event without a state key is no state: nothing is allowed by it.
+    `none` = a provider call failed. -/
 def atState {P} (O : Oracles P) (sp : StateProvider) (e : Event) (allowValidation : Bool) : Option Bool :=
   match sp.ids e with
   | none => none
@@ -106,10 +141,29 @@ def atState {P} (O : Oracles P) (sp : StateProvider) (e : Event) (allowValidatio
     else match sp.state e ids with
       | none => none
       | some kvs =>
+        if kvs.any (fun kv => kv.2.stateKey.isNone) then some false
+        else some (O.allowedBy e (stateProviderOf O (kvs.map (·.2))))
+
+/-- an auth event ID of `e` is bound, in the returned state, to an event without a state key -/
+def citesNonState (kvs : List (Bytes × Event)) (e : Event) : Bool :=
+  e.authEventIDs.any (fun id => match stateLookup kvs id with
+    | some a => a.stateKey.isNone
+    | none => false)
+
+/-- What VerifyAuthRulesAtState computed before the repair of finding R1 (kept for the record and for the
+    lemma `atStateCited_eq` in VProps/C14.lean): the event judged by those of ITS OWN auth events that
+    are found in the state — so an event that omits the power levels from its `auth_events` was judged
+    without them. -/
+def atStateCited {P} (O : Oracles P) (sp : StateProvider) (e : Event) (allowValidation : Bool) : Option Bool :=
+  match sp.ids e with
+  | none => none
+  | some ids =>
+    if allowValidation && e.authEventIDs.all (fun a => ids.contains a) then some true
+    else match sp.state e ids with
+      | none => none
+      | some kvs =>
         -- an auth event ID bound to a non-state event makes AddEvent fail: refused
-        if e.authEventIDs.any (fun id => match stateLookup kvs id with
-            | some a => a.stateKey.isNone
-            | none => false) then some false
+        if citesNonState kvs e then some false
         else some (O.allowedBy e (authOf O (stateLookup kvs) e))
 
 /-! ### VerifyEventAuthChain
